@@ -93,7 +93,8 @@ fn suppressed_bank(inv: &Inv, wire: usize) -> (String, Vec<u8>) {
 fn banks_of(inv: &Inv, ev: &Ev, rng: &mut Rng) -> Banks {
     let mut banks = Vec::new();
     for (w, s) in &ev.wires {
-        banks.push(event::wire_bank(inv, *w, s.clone()));
+        // footer keep fields: any legal combination (none of it may matter for the slot)
+        banks.push(event::wire_bank_varied(inv, *w, s.clone(), rng));
     }
     for w in &ev.suppressed {
         banks.push(suppressed_bank(inv, *w));
